@@ -505,6 +505,10 @@ func runC02(c *Ctx) {
 	c.consumingLoopsRule("R7", p)
 	r.Rule("R9", "nothing the event loop waits for can loop for ever on some input: every loop in the built-in handlers, in everything they call (command API, tracker) and in the dispatch machinery terminates by shape - range over a finite collection, counter advancing towards a loop-invariant bound, text that gets strictly shorter, or walk of a linked structure; a retry loop whose exit depends on a lookup or on a user-supplied function is not accepted")
 	c.loopVariantRule("R9", p)
+	r.Rule("R10", "formatting cannot recurse without end (a stack overflow is fatal, no recover() stops it): in the module's call graph extended with formatting edges - a value boxed into an interface in F whose type has a String / Error / GoString / Format method of the module may have that method run by fmt or a formatting logger - no such method lies on a cycle; the tracker's objects refer to each other, so two String methods printing each other's objects with %s never finish")
+	c.formatRecursionRule("R10")
+	r.Rule("R11", "every received line is rejected or dispatched whole: once a socket read or write has reported an error, control never comes round to the same call again without the teardown (shared with C06.R9) - ReadString hands back the bytes read so far together with the error (a read deadline, say), and a loop that carries on drops them and parses the rest of the line as a line of its own")
+	c.ioErrorsEndRule("R11")
 	c.writeErrorsRule("R8")
 
 	// R4
@@ -855,10 +859,33 @@ func runC11(c *Ctx) {
 		if v, isV := cs.(ssa.Value); isV {
 			pieces = v
 		}
+		// a call that sends one line: Raw itself, or an unexported method of the client every path of which calls
+		// Raw exactly once, outside loops, with a line that holds its own (first) argument
+		sendsOne := func(h *ssa.Function) bool {
+			if h == nil || h == a.Raw || !c.InModuleFn(h) || h.Package() != c.Client || h.Blocks == nil || (h.Object() != nil && h.Object().Exported()) || addrTaken(h) || len(h.Params) < 2 {
+				return false
+			}
+			var raws []ssa.CallInstruction
+			for _, x := range CallSites(h) {
+				if x.Common().StaticCallee() == a.Raw {
+					raws = append(raws, x)
+				}
+			}
+			if len(raws) != 1 || c.LoopDepth(raws[0].Block()) != 0 {
+				return false
+			}
+			if _, isCall := raws[0].(*ssa.Call); !isCall {
+				return false
+			}
+			if all, _ := AllPathsFromEntryPass(h, func(in ssa.Instruction) bool { return in == ssa.Instruction(raws[0]) }); !all {
+				return false
+			}
+			return c.dependsOn(raws[0].Common().Args[1], h.Params[1], 0)
+		}
 		collect := func(f *ssa.Function) []ssa.CallInstruction {
 			var out []ssa.CallInstruction
 			for _, x := range CallSites(f) {
-				if x.Common().StaticCallee() == a.Raw {
+				if x.Common().StaticCallee() == a.Raw || (!x.Common().IsInvoke() && sendsOne(x.Common().StaticCallee())) {
 					out = append(out, x)
 				}
 			}
@@ -947,6 +974,45 @@ func (c *Ctx) dependsOn(v, target ssa.Value, depth int) bool {
 		}
 	case *ssa.ChangeType:
 		return c.dependsOn(t.X, target, depth+1)
+	case *ssa.Convert:
+		return c.dependsOn(t.X, target, depth+1)
+	case *ssa.UnOp:
+		if t.Op != token.MUL {
+			return false
+		}
+		// a record kept in a local variable: the record (or the field read) holds the target when something
+		// stored into it does
+		var al *ssa.Alloc
+		field := -1
+		switch a := t.X.(type) {
+		case *ssa.Alloc:
+			al = a
+		case *ssa.FieldAddr:
+			if a2, ok := a.X.(*ssa.Alloc); ok {
+				al, field = a2, a.Field
+			}
+		}
+		if al == nil {
+			return false
+		}
+		for _, ref := range *al.Referrers() {
+			switch r := ref.(type) {
+			case *ssa.Store:
+				if r.Addr == ssa.Value(al) && c.dependsOn(r.Val, target, depth+1) {
+					return true
+				}
+			case *ssa.FieldAddr:
+				if field >= 0 && r.Field != field {
+					continue
+				}
+				for _, r2 := range *r.Referrers() {
+					if st, ok := r2.(*ssa.Store); ok && st.Addr == ssa.Value(r) && c.dependsOn(st.Val, target, depth+1) {
+						return true
+					}
+				}
+			}
+		}
+		return false
 	case *ssa.Call:
 		// a module function (also one reached through a function-typed parameter) whose every result contains
 		// the parameter the target is passed as
